@@ -26,6 +26,7 @@ type DriverSpec struct {
 	DeltaFile string `json:"delta_file"`
 	StateOut  string `json:"state_out"`
 	Tick      bool   `json:"tick"` // let one periodic maintenance run before the shutdown
+	Bare      bool   `json:"bare"` // the snapshot path is the BARE file name (--storage.path=.): the process runs in Dir
 }
 
 func TestC11Driver(t *testing.T) {
@@ -46,6 +47,12 @@ func TestC11Driver(t *testing.T) {
 		t.Fatal(err)
 	}
 	snapf := filepath.Join(spec.Dir, spec.Target)
+	if spec.Bare {
+		if wd, _ := os.Getwd(); filepath.Clean(wd) != filepath.Clean(spec.Dir) {
+			t.Fatalf("driver: working directory %s, want %s", wd, spec.Dir)
+		}
+		snapf = spec.Target // filepath.Join(".", "silences") as app.go computes it for --storage.path=.
+	}
 	interval := time.Hour
 	if spec.Tick {
 		interval = 40 * time.Millisecond
